@@ -30,6 +30,7 @@ import (
 	"github.com/flanglet/kanzi-go/v2/entropy"
 	"github.com/flanglet/kanzi-go/v2/hash"
 	"github.com/flanglet/kanzi-go/v2/internal"
+	"github.com/flanglet/kanzi-go/v2/internal/simhook"
 	"github.com/flanglet/kanzi-go/v2/transform"
 )
 
@@ -694,10 +695,12 @@ func (this *Writer) processBlock() error {
 			ctx:                copyCtx}
 
 		// Invoke the tasks concurrently
+		simhook.Spawn(&results[taskID])
 		go task.encode(&results[taskID])
 	}
 
 	// Wait for completion of all tasks
+	simhook.Join()
 	wg.Wait()
 
 	for _, r := range results {
@@ -727,6 +730,7 @@ func (this *Writer) GetWritten() uint64 {
 //
 // then 0byyyyyyyy => transform sequence skip flags (1 means skip)
 func (this *encodingTask) encode(res *encodingTaskResult) {
+	simhook.Start(res)
 	data := this.iBuffer.Buf
 	buffer := this.oBuffer.Buf
 	mode := byte(0)
@@ -734,12 +738,19 @@ func (this *encodingTask) encode(res *encodingTaskResult) {
 
 	defer func() {
 		if r := recover(); r != nil {
+			simhook.Recovered(r)
 			switch v := r.(type) {
 			case error:
 				res.err = &IOError{msg: v.Error(), code: kanzi.ERR_PROCESS_BLOCK}
 			default:
 				res.err = &IOError{msg: fmt.Sprint(v), code: kanzi.ERR_PROCESS_BLOCK}
 			}
+		}
+
+		if res.err != nil {
+			simhook.Point("enc.release", 1)
+		} else {
+			simhook.Point("enc.release", 0)
 		}
 
 		// Unblock other tasks
@@ -749,6 +760,7 @@ func (this *encodingTask) encode(res *encodingTaskResult) {
 			atomic.CompareAndSwapInt32(this.processedBlockID, this.currentBlockID-1, this.currentBlockID)
 		}
 
+		simhook.Exit(res)
 		this.wg.Done()
 	}()
 
@@ -762,6 +774,9 @@ func (this *encodingTask) encode(res *encodingTaskResult) {
 		checksum = this.hasher64.Hash(data[0:this.blockLength])
 		hashType = kanzi.EVT_HASH_64BITS
 	}
+
+	simhook.Point("enc.compute", int(this.currentBlockID))
+	simhook.Corrupt("enc.data", data[0:this.blockLength])
 
 	if len(this.listeners) > 0 {
 		// Notify before transform
@@ -931,9 +946,12 @@ func (this *encodingTask) encode(res *encodingTaskResult) {
 		}
 	}
 
+	simhook.Point("enc.wait", int(this.currentBlockID))
+
 	// Lock free synchronization
 	for n := 0; ; n++ {
 		taskID := atomic.LoadInt32(this.processedBlockID)
+		simhook.Spin("enc.spin", taskID, this.currentBlockID-1)
 
 		if taskID == _CANCEL_TASKS_ID {
 			return
@@ -947,6 +965,8 @@ func (this *encodingTask) encode(res *encodingTaskResult) {
 			runtime.Gosched()
 		}
 	}
+
+	simhook.Point("enc.acquired", int(this.currentBlockID))
 
 	// Emit block size in bits (max size pre-entropy is 1 GB = 1 << 30 bytes)
 	lw := uint(3)
@@ -974,6 +994,8 @@ func (this *encodingTask) encode(res *encodingTaskResult) {
 			chkSize = uint(written)
 		}
 	}
+
+	simhook.Point("enc.emitted", int(this.currentBlockID))
 }
 
 func notifyListeners(listeners []kanzi.Listener, evt *kanzi.Event) {
@@ -1320,6 +1342,7 @@ func (this *Reader) readHeader() (err error) {
 
 	defer func() {
 		if r := recover(); r != nil {
+			simhook.Recovered(r)
 
 			switch v := r.(type) {
 			case error:
@@ -1689,10 +1712,12 @@ func (this *Reader) processBlock() (int64, error) {
 				ctx:                copyCtx}
 
 			// Invoke the tasks concurrently
+			simhook.Spawn(&results[taskID])
 			go task.decode(&results[taskID])
 		}
 
 		// Wait for completion of all tasks
+		simhook.Join()
 		wg.Wait()
 
 		// Process results
@@ -1761,6 +1786,7 @@ func (this *Reader) GetRead() uint64 {
 //
 // then 0byyyyyyyy => transform sequence skip flags (1 means skip)
 func (this *decodingTask) decode(res *decodingTaskResult) {
+	simhook.Start(res)
 	data := this.iBuffer.Buf
 	buffer := this.oBuffer.Buf
 	decoded := 0
@@ -1776,6 +1802,7 @@ func (this *decodingTask) decode(res *decodingTaskResult) {
 		res.skipped = skipped
 
 		if r := recover(); r != nil {
+			simhook.Recovered(r)
 			err, ok := r.(error)
 
 			if ok {
@@ -1785,6 +1812,12 @@ func (this *decodingTask) decode(res *decodingTaskResult) {
 			}
 		}
 
+		if res.err != nil || (res.decoded == 0 && res.skipped == false) {
+			simhook.Point("dec.release", 1)
+		} else {
+			simhook.Point("dec.release", 0)
+		}
+
 		// Unblock other tasks
 		if res.err != nil || (res.decoded == 0 && res.skipped == false) {
 			atomic.StoreInt32(this.processedBlockID, _CANCEL_TASKS_ID)
@@ -1792,12 +1825,14 @@ func (this *decodingTask) decode(res *decodingTaskResult) {
 			atomic.StoreInt32(this.processedBlockID, this.currentBlockID)
 		}
 
+		simhook.Exit(res)
 		this.wg.Done()
 	}()
 
 	// Lock free synchronization
 	for n := 0; ; n++ {
 		taskID := atomic.LoadInt32(this.processedBlockID)
+		simhook.Spin("dec.spin", taskID, this.currentBlockID-1)
 
 		if taskID == _CANCEL_TASKS_ID {
 			return
@@ -1811,6 +1846,8 @@ func (this *decodingTask) decode(res *decodingTaskResult) {
 			runtime.Gosched()
 		}
 	}
+
+	simhook.Point("dec.acquired", int(this.currentBlockID))
 
 	// Read shared bitstream sequentially
 	blockOffset := this.ibs.Read()
@@ -1851,9 +1888,13 @@ func (this *decodingTask) decode(res *decodingTaskResult) {
 		read -= uint64(chkSize)
 	}
 
+	simhook.Point("dec.publish", int(this.currentBlockID))
+
 	// After completion of the bitstream reading, increment the block id.
 	// It unblocks the task processing the next block (if any)
 	atomic.StoreInt32(this.processedBlockID, this.currentBlockID)
+
+	simhook.Point("dec.published", int(this.currentBlockID))
 
 	// Check if the block must be skipped
 	if v, hasKey := this.ctx["from"]; hasKey {
@@ -1990,6 +2031,8 @@ func (this *decodingTask) decode(res *decodingTaskResult) {
 	}
 
 	decoded = int(oIdx)
+
+	simhook.Corrupt("dec.data", data[0:decoded])
 
 	// Verify checksum
 	if this.hasher32 != nil {
